@@ -466,11 +466,6 @@ def run(pid, tier, seed, replay=None):
             sc.write(nm + ".tla", mod)
             jobs.append((nm, sc, nm, cfg + "INIT Init\nNEXT Next\nVIEW View\nINVARIANT Coherent\nINVARIANT MatrixCurrent\n",
                          dict(workers=4, timeout=1800)))
-        if thorough:    # full constants, every behaviour of up to 4 operations (bounded exhaustively) in addition to the simulations
-            mod, cfg = mc_text("MCD_cc", True, "mc")
-            sc.write("MCD_cc.tla", mod)
-            jobs.append(("MCD_cc", sc, "MCD_cc", cfg + "INIT Init\nNEXT Next\nVIEW View\nCONSTRAINT DepthBound\nINVARIANT Coherent\nINVARIANT MatrixCurrent\n",
-                         dict(workers=8, timeout=3000)))
         mod, cfg = mc_text("G_cc", True, "gen")
         sc.write("G_cc.tla", mod)
         jobs.append(("G_cc", sc, "G_cc", cfg + "INIT GenInit\nNEXT Next\nCONSTRAINT DepthBound\n",
@@ -478,7 +473,7 @@ def run(pid, tier, seed, replay=None):
         mod, cfg = mc_text("S_cc", True)
         sc.write("S_cc.tla", mod)
         jobs.append(("S_cc", sc, "S_cc", cfg + "INIT Init\nNEXT Next\n", dict(timeout=1800, simulate=dict(
-            num=450 if thorough else 200, depth=30 if thorough else 18, seed=rng.randrange(1, 2**31), file=sc.path("sim/S_cc")))))
+            num=300 if thorough else 200, depth=24 if thorough else 18, seed=rng.randrange(1, 2**31), file=sc.path("sim/S_cc")))))
         res = tlc.run_many(jobs, parallel=4)
         for nm, r in res.items():
             tlc.must_pass(r, nm)
@@ -486,17 +481,14 @@ def run(pid, tier, seed, replay=None):
             raise tlc.MachineryError("vacuity: CondCache does not detect stale reuse when a repaired defect is switched back on")
         rep.extra["non_vacuity"] = ("with ClearOnSetCondition = FALSE TLC reports %s %s; with ReuseToken = none: %s %s; with ReuseToken = kvar: %s %s"
                                     % (res["NEG_cc"].error + res["NEG2_cc"].error + res["NEG3_cc"].error))
-        for nm in ("MC_cc", "G_cc", "S_cc") + (("MCD_cc",) if thorough else ()):
+        for nm in ("MC_cc", "G_cc", "S_cc"):
             rep.add_tlc("CondCache." + nm, res[nm])
-            if nm == "MCD_cc" and res[nm].error:
-                rep.violation("design:%s" % res[nm].error[1], "the code-shaped cache model violates %s (full constants, bounded depth)" % res[nm].error[1],
-                              {"trace": tlc.error_trace(res[nm])})
         if res["MC_cc"].error:
             rep.violation("design:%s" % res["MC_cc"].error[1], "the code-shaped cache model violates %s" % res["MC_cc"].error[1],
                           {"trace": tlc.error_trace(res["MC_cc"])})
         nodes, edges, inits = tlc.read_dot(sc.path("G_cc.dot"))
         ps, _ = paths.edge_cover(nodes, edges, inits, rng=rng, merge=True)
-        cap = 1500 if thorough else 500
+        cap = 900 if thorough else 500
         if len(ps) > cap:
             ps = rng.sample(ps, cap)
         behs = [("state-graph edge cover", [nodes[i] for i in p]) for p in ps]
@@ -510,7 +502,7 @@ def run(pid, tier, seed, replay=None):
               ("Ordinary", 2, 0.0, False, ("meshswitch",)), ("Simple", 2, 0.0, False, ("nearby",))]
     if thorough:
         combos += [("Ordinary", 1, 0.0, False, ()), ("Simple", 2, 0.0, False, ()), ("Ordinary", 2, 0.3, False, ()), ("Ordinary", 2, 0.0, True, ()),
-                   ("Ordinary", 2, 0.3, False, ("cond_err0",)), ("Ordinary", 1, 0.0, False, ("lognormal",)), ("Ordinary", 2, 0.0, False, ("stable",)),
+                   ("Ordinary", 2, 0.3, False, ("cond_err0",)), ("Simple", 1, 0.0, False, ("lognormal",)), ("Ordinary", 2, 0.0, False, ("stable",)),
                    ("Simple", 2, 0.0, False, ("meshswitch",)), ("Simple", 1, 0.0, False, ("meshswitch",)),
                    ("Ordinary", 1, 0.0, False, ("nearby",)), ("Ordinary", 2, 0.3, False, ("nearby",))]
     for ci, (variant, dim, nugget, big, opts) in enumerate(combos):
